@@ -12,8 +12,10 @@ PROPS["C18"] = dict(
          "x 5 selectors (<, <=, always-first, always-second, >) x source kinds x every program over {h,n,r,i} / {h,n,r} to the "
          "depths in exhaustive_parts; re-Init inputs there are the swapped pair and, as a second variant, two empty inputs; a "
          "pair with a non-resettable source is enumerated only with programs whose first Reset is the last call (the wrapper "
-         "delegates every other call and the case ends at the refused Reset). rapid: lengths 0..40, alphabets of 1..20 values, "
-         "sorted under the selector in 60% of the draws, independent second pair, programs up to 120 (200) calls, no reductions. Source kinds: WrapIntSlice, a wrapper without Reset (Reset must return an "
+         "delegates every other call and the case ends at the refused Reset); an empty input is served both from an empty non-nil "
+         "slice and from a nil slice (WrapIntSlice(nil), per side; for the two-empty re-Init variant both-nil with selector <= only). rapid: lengths 0..40, alphabets of 1..20 values, "
+         "sorted under the selector in 60% of the draws, independent second pair, programs up to 120 (200) calls, no reductions; empty inputs nil or non-nil (drawn), 5% inputs of "
+         "500..3000 elements, 5% negative/zero/extreme values (|v| < 2^42), 5% both inputs served from one and the same slice. Source kinds: WrapIntSlice, a wrapper without Reset (Reset must return an "
          "error; the mixer is not used afterwards because its state after a refused Reset is undocumented), and a resettable "
          "source whose final HasNext says true while the following Next returns (0,false) and which stays exhausted "
          "afterwards (iterator.go imparity; the undelivered element is not part of the input). Sources that revive after "
